@@ -1353,7 +1353,10 @@ func (c *inlCtx) tryCall(st ast.Stmt, call *ast.CallExpr, kind callKind, as *ast
 		if pkg == c.pk.Types {
 			return ""
 		}
-		if n, ok := imports[pkg.Path()]; ok && n != "_" && n != "." {
+		if n, ok := imports[pkg.Path()]; ok && n != "_" {
+			if n == "." {
+				return "" // dot import: the names are visible unqualified
+			}
 			return n
 		}
 		typeOK = false
